@@ -145,6 +145,7 @@ type Conn struct {
 	rchan  chan *Fcall
 	done   chan bool
 	gone   chan bool // closed when the connection is closed: nobody reads reqout any more
+	closed bool      // close() has released the fid table; requests that outlive the connection release what they bind
 
 	// stats
 	nreqs   int    // number of requests processed by the server
@@ -163,6 +164,7 @@ type SrvFid struct {
 	sync.Mutex
 	fid       uint32
 	refcount  int
+	bound     bool        // the connection's fid table holds a reference (the fid is valid for the client)
 	opened    bool        // True if the SrvFid is opened
 	Fconn     *Conn       // Connection the SrvFid belongs to
 	Omode     uint8       // Open mode (O* flags), if the fid is opened
@@ -416,6 +418,14 @@ func (req *SrvReq) Respond() {
 		req.PostProcess()
 	}
 
+	// a request that outlived its connection releases what it has bound
+	conn.Lock()
+	closed := conn.closed
+	conn.Unlock()
+	if closed {
+		conn.releaseFids()
+	}
+
 	verifPoint("respond.posted", req)
 	if (status & reqFlush) == 0 {
 		select {
@@ -524,6 +534,43 @@ func (fid *SrvFid) IncRef() {
 	fid.Lock()
 	fid.refcount++
 	fid.Unlock()
+}
+
+// bind takes the fid table's reference: the fid is now valid for the client.
+func (fid *SrvFid) bind() {
+	fid.Lock()
+	fid.refcount++
+	fid.bound = true
+	fid.Unlock()
+}
+
+// unbind drops the fid table's reference, if it is still held (a clunk and
+// the closing of the connection may both try).
+func (fid *SrvFid) unbind() {
+	fid.Lock()
+	was := fid.bound
+	fid.bound = false
+	fid.Unlock()
+	if was {
+		fid.DecRef()
+	}
+}
+
+// releaseFids drops the fid table's reference to every fid of a closed
+// connection. A fid that an executing request still uses is destroyed when
+// that request drops its own reference, so FidDestroy is called exactly once
+// per fid and never while a request is working on it.
+func (conn *Conn) releaseFids() {
+	conn.Lock()
+	conn.closed = true
+	fids := make([]*SrvFid, 0, len(conn.fidpool))
+	for _, fid := range conn.fidpool {
+		fids = append(fids, fid)
+	}
+	conn.Unlock()
+	for _, fid := range fids {
+		fid.unbind()
+	}
 }
 
 // Decrease the reference count for the fid. When the
